@@ -44,6 +44,7 @@ FUNCS = {
     "math.atan2": lambda y, x: sp.Function("atan2")(y, x),
     "numpy.minimum": lambda a, b: sp.Function("minimum")(a, b),
     "numpy.maximum": lambda a, b: sp.Function("maximum")(a, b),
+    "numpy.clip": lambda a, lo, hi: sp.Function("clip")(a, lo, hi),
     "numpy.square": lambda a: a ** 2,
     "numpy.nan_to_num": lambda a: a,
     "numpy.array": lambda a: a,
